@@ -41,12 +41,12 @@ func (b *budgetDB) spend() {
 		panic(budgetExceeded{})
 	}
 }
-func (b *budgetDB) Get(k []byte) []byte            { b.spend(); return b.DB.Get(k) }
-func (b *budgetDB) Load(k []byte) ([]byte, error)  { b.spend(); return b.DB.Load(k) }
-func (b *budgetDB) Delete(k []byte)                { b.spend(); b.DB.Delete(k) }
-func (b *budgetDB) DeleteSync(k []byte)            { b.spend(); b.DB.DeleteSync(k) }
-func (b *budgetDB) Has(k []byte) bool              { b.spend(); return b.DB.Has(k) }
-func (b *budgetDB) Exist(k []byte) (bool, error)   { b.spend(); return b.DB.Exist(k) }
+func (b *budgetDB) Get(k []byte) []byte           { b.spend(); return b.DB.Get(k) }
+func (b *budgetDB) Load(k []byte) ([]byte, error) { b.spend(); return b.DB.Load(k) }
+func (b *budgetDB) Delete(k []byte)               { b.spend(); b.DB.Delete(k) }
+func (b *budgetDB) DeleteSync(k []byte)           { b.spend(); b.DB.DeleteSync(k) }
+func (b *budgetDB) Has(k []byte) bool             { b.spend(); return b.DB.Has(k) }
+func (b *budgetDB) Exist(k []byte) (bool, error)  { b.spend(); return b.DB.Exist(k) }
 
 type pruneFacts struct {
 	hash    common.Hash
